@@ -294,7 +294,12 @@ pub fn batch_atomicity(d: &Driver, b: usize, obs: &Obs) -> Option<String> {
             continue;
         }
         let Some(oq) = obs.queues.get(name) else { continue };
-        let recs: Vec<Rec> = lens.iter().enumerate().map(|(k, &l)| Rec::of(first + k as u64, &crate::model::payload(*uid, k as u32, l as usize))).collect();
+        // only self-identifying payloads (>= 16 bytes: they carry the op id) are attributable to this batch;
+        // shorter ones can be byte-equal to records of another incarnation at the same position
+        let recs: Vec<Rec> = lens.iter().enumerate().filter(|(_, &l)| l >= 16).map(|(k, &l)| Rec::of(first + k as u64, &crate::model::payload(*uid, k as u32, l as usize))).collect();
+        if recs.len() < 2 {
+            continue;
+        }
         let present: Vec<bool> = recs.iter().map(|r| oq.recs.binary_search_by_key(&r.pos, |x| x.pos).ok().map(|ix| oq.recs[ix] == *r).unwrap_or(false)).collect();
         let n_present = present.iter().filter(|&&p| p).count();
         if n_present == 0 || n_present == recs.len() {
